@@ -77,11 +77,41 @@ AllDecls == 1..Len(DeclList)
 MaskedDecls == { i \in AllDecls : DeclList[i].sf = "stack" /\ Cardinality(Ents(DeclList[i])) = Cardinality(DeclList[i].st) }
 Decls == { DeclList[i] : i \in DeclSet }
 Data == {"-", "p=1", "p=2,q=x"}
-\* outgoing service calls from scripts: keywords given -> data that must be delivered
-OutCases == { [give |-> "p=1", deliver |-> "p=1"], [give |-> "p=2,q=x", deliver |-> "p=2,q=x"],
-              [give |-> "p=1,blocking=True", deliver |-> "p=1"],
-              [give |-> "return_response=False,p=2,q=x", deliver |-> "p=2,q=x"],
-              [give |-> "blocking=False", deliver |-> "-"] }
+\* Outgoing service calls from scripts (service.call(domain, name, **kw) and domain.name(**kw)).  A keyword is
+\* [k, t, v]: name, type of the value ("str" | "int" | "bool" | "none" | "ctx" = a Context object), value as text.
+\* RULE: a keyword is an option of the call iff it is one of the three names context / blocking / return_response
+\* AND its value has the qualifying type (Context, bool, bool); every other keyword - in particular a keyword of
+\* one of these names with a value of another type - is a service parameter and is delivered as data unchanged.
+Kw(k, t, v) == [k |-> k, t |-> t, v |-> v]
+IsOption(kw) == \/ kw.k = "context" /\ kw.t = "ctx"
+                \/ kw.k \in {"blocking", "return_response"} /\ kw.t = "bool"
+\* the keyword sets tried (each sorted by name): ordinary parameters, options of qualifying type, and parameters
+\* that are merely NAMED like options
+OutGives == {
+  <<Kw("p", "str", "1")>>,
+  <<Kw("p", "str", "2"), Kw("q", "str", "x")>>,
+  <<Kw("blocking", "bool", "True"), Kw("p", "str", "1")>>,
+  <<Kw("p", "str", "2"), Kw("q", "str", "x"), Kw("return_response", "bool", "False")>>,
+  <<Kw("blocking", "bool", "False")>>,
+  <<Kw("context", "str", "evening"), Kw("level", "int", "3")>>,
+  <<Kw("blocking", "str", "later"), Kw("p", "str", "1")>>,
+  <<Kw("blocking", "int", "0"), Kw("context", "none", "None"), Kw("return_response", "int", "3")>>,
+  <<Kw("context", "ctx", "vfctx"), Kw("p", "str", "1")>>,
+  <<Kw("blocking", "bool", "True"), Kw("context", "ctx", "vfctx"), Kw("return_response", "bool", "True"), Kw("x", "int", "1")>>,
+  <<Kw("return_response", "str", "no"), Kw("x", "int", "1")>>,
+  <<Kw("blocking", "none", "None"), Kw("return_response", "bool", "True")>> }
+\* what the called service must see: data = the non-option keywords (name, type, value unchanged); ctx = the call
+\* ran under the given Context; blk = the caller waited for the service (blocking given, else implied by
+\* return_response=True, else HA's default: no); rsp = the service's response came back to the script
+NoOut == [data |-> <<>>, ctx |-> FALSE, blk |-> FALSE, rsp |-> FALSE]
+OutExpect(give) ==
+  LET opt(name) == { i \in 1..Len(give) : give[i].k = name /\ IsOption(give[i]) }
+      isTrue(name) == \E i \in opt(name) : give[i].v = "True"
+      NotOption(kw) == ~IsOption(kw)
+  IN [ data |-> SelectSeq(give, NotOption),
+       ctx  |-> opt("context") # {},
+       blk  |-> IF opt("blocking") # {} THEN isTrue("blocking") ELSE isTrue("return_response"),
+       rsp  |-> isTrue("return_response") ]
 OutForms == {"name", "call"}
 
 VARIABLES flags, sub, started, unloaded, loaded, G, bind, cont, cnt, own, hd, subs, lst, tm,
@@ -99,7 +129,8 @@ vars == <<flags, sub, started, unloaded, loaded, G, bind, cont, cnt, own, hd, su
 \* are leaves of the exhaustive search; what they run is constrained by action properties.
 
 Range(s) == { s[i] : i \in 1..Len(s) }
-NoRes == [k |-> "-", g |-> 0, data |-> "-"]
+Res(k, g, data) == [k |-> k, g |-> g, data |-> data, o |-> NoOut]
+NoRes == Res("-", 0, "-")
 EmptyCont == [L |-> <<>>, D |-> 0]
 Run(g, k, x, data) == [g |-> g, k |-> k, x |-> x, data |-> data]
 MaxOf(S) == CHOOSE x \in S : \A y \in S : y <= x
@@ -349,15 +380,15 @@ SetState(x) == /\ "set" \in Acts /\ started
 Call(s, data, rr) ==
   /\ "call" \in Acts /\ started /\ (hd[s] # 0 /\ G[hd[s]].d.resp = "only" => rr)
   /\ LET a == [a |-> "call", s |-> s, data |-> data, rr |-> rr] IN
-     IF hd[s] = 0 THEN Occur(a, {}, [k |-> "notfound", g |-> 0, data |-> "-"])
+     IF hd[s] = 0 THEN Occur(a, {}, Res("notfound", 0, "-"))
      ELSE LET g == hd[s]  rp == G[g].d.resp IN
-          IF (rr /\ rp = "none") \/ (~rr /\ rp = "only") THEN Occur(a, {}, [k |-> "err", g |-> 0, data |-> "-"])
+          IF (rr /\ rp = "none") \/ (~rr /\ rp = "only") THEN Occur(a, {}, Res("err", 0, "-"))
           ELSE Occur(a, { Run(g, "service", "-", data) },
-                     IF rr THEN [k |-> "val", g |-> g, data |-> data] ELSE [k |-> "none", g |-> 0, data |-> "-"])
+                     IF rr THEN Res("val", g, data) ELSE Res("none", 0, "-"))
 \* a script calls a foreign service (vt.sink): exactly the given keyword parameters are delivered
-Out(c, form, oc) ==
+Out(c, form, give) ==
   /\ "out" \in Acts /\ ExecOK(c)
-  /\ Occur([a |-> "out", c |-> c, form |-> form, give |-> oc.give], {}, [k |-> "out", g |-> 0, data |-> oc.deliver])
+  /\ Occur([a |-> "out", c |-> c, form |-> form, give |-> give], {}, [k |-> "out", g |-> 0, data |-> "-", o |-> OutExpect(give)])
 
 \* deferred completion of a deactivation (Eager = FALSE only)
 Complete(g, name) ==
@@ -394,7 +425,7 @@ Next == \/ (started /\ \E c \in Ctx, n \in Name, d \in Decls : Define(c, n, d))
         \/ (started /\ \E e \in Ev : Fire(e))
         \/ (started /\ \E x \in Ent : SetState(x))
         \/ (started /\ \E s \in Svc, data \in Data, rr \in BOOLEAN : Call(s, data, rr))
-        \/ (started /\ \E c \in Ctx, f \in OutForms, oc \in OutCases : Out(c, f, oc))
+        \/ (started /\ \E c \in Ctx, f \in OutForms, give \in OutGives : Out(c, f, give))
         \/ (started /\ \E g \in Gen : StopDeferred(g) \/ ReaperCancel(g))
 Spec == Init /\ [][Next]_vars
 View == <<flags, sub, started, unloaded, loaded, G, bind, cont, cnt, own, hd, subs, lst, tm, steps>>
@@ -463,11 +494,11 @@ CallDeliversDataAndTriggerType ==
 ResponseReturnedWhenSupported ==
   [][(lastAct'.a = "call" /\ steps' = steps /\ hd[lastAct'.s] # 0)
         => LET g == hd[lastAct'.s]  rp == G[g].d.resp IN
-           IF lastAct'.rr THEN (IF rp = "none" THEN res'.k = "err" ELSE res' = [k |-> "val", g |-> g, data |-> lastAct'.data])
+           IF lastAct'.rr THEN (IF rp = "none" THEN res'.k = "err" ELSE res' = Res("val", g, lastAct'.data))
            ELSE (IF rp = "only" THEN res'.k = "err" ELSE res'.k = "none")]_vars
 OutgoingCallDeliversGivenKeywords ==
   [][(lastAct'.a = "out" /\ steps' = steps)
-        => \E oc \in OutCases : oc.give = lastAct'.give /\ res' = [k |-> "out", g |-> 0, data |-> oc.deliver]]_vars
+        => res' = [k |-> "out", g |-> 0, data |-> "-", o |-> OutExpect(lastAct'.give)]]_vars
 \* generator mask for "service-handler-not-repointed": at most one live declaration per service
 MaskOneDeclaration == \A s \in Svc : cnt[s] <= 1
 \* witnesses (must be violated: the interesting situations are reachable)
